@@ -102,6 +102,8 @@ def canon(x):
 
 
 def param_hash(st):
+    """everything the model's evaluations depend on: the parameters of every network AND the tensors of the state's unitary
+    dictionary (read by every rotation / gradient in another basis, replaced by `load`)"""
     m = hashlib.sha1()
     for net in st.networks:
         rbm = getattr(st, net)
@@ -109,6 +111,13 @@ def param_hash(st):
             m.update(name.encode())
             m.update(str(tuple(p.shape)).encode())
             m.update(p.detach().cpu().contiguous().numpy().tobytes())
+    ud = getattr(st, "unitary_dict", None)
+    if ud is not None:
+        for name in sorted(ud):
+            t = ud[name]
+            m.update(b"U" + str(name).encode())
+            m.update(str(tuple(t.shape)).encode() + str(t.dtype).encode())
+            m.update(t.detach().cpu().contiguous().numpy().tobytes())
     return m.hexdigest()[:20]
 
 
@@ -137,7 +146,49 @@ OBS = {
     "SWAP": lambda: SWAP([0]), "Neighbour": lambda: NeighbourInteraction(),
     "NeighbourP": lambda: NeighbourInteraction(periodic_bcs=True),
 }
+OBS["Composite"] = lambda: 0.5 * SigmaZ() + 2 * SigmaX() - NeighbourInteraction() + 1.5  # composite observable (+, -, scalar *, constant)
+
+
+class Extra:
+    """a value observed on the side of an operation that itself returns None (what an evaluator callback recorded during `fit`)"""
+
+    def __init__(self, v):
+        self.v = v
 OPT = {"SGD": torch.optim.SGD, "Adam": torch.optim.Adam, "Adadelta": torch.optim.Adadelta}
+STATE_CLASSES = (PositiveWaveFunction, ComplexWaveFunction, DensityMatrix)
+
+
+def public_api():
+    """the public callables of the library that take or are a model (derived by introspection, never from a list): methods of
+    the three state classes, of every observable class and of System, the functions of training_statistics and unitaries, the
+    library's seeding call"""
+    import inspect
+
+    import qucumber.observables as obsmod
+
+    names = set()
+    for cls in STATE_CLASSES:
+        for n, mem in inspect.getmembers(cls):
+            if not n.startswith("_") and callable(mem):
+                names.add(f"state.{n}")
+    for n, cls in inspect.getmembers(obsmod, inspect.isclass):
+        if n.startswith("_"):
+            continue
+        owner = "System" if cls is System else "observable"
+        for mn, mem in inspect.getmembers(cls):
+            if not mn.startswith("_") and callable(mem):
+                names.add(f"{owner}.{mn}")
+    for n, f in inspect.getmembers(obsmod, inspect.isfunction):
+        if not n.startswith("_"):
+            names.add(f"observables.{n}")
+    for label, mod in (("training_statistics", ts), ("unitaries", unitaries)):
+        for n, f in inspect.getmembers(mod, inspect.isfunction):
+            if not n.startswith("_") and f.__module__ == mod.__name__:
+                names.add(f"{label}.{n}")
+    for n, f in inspect.getmembers(qucumber, inspect.isfunction):
+        if not n.startswith("_"):
+            names.add(f"qucumber.{n}")
+    return sorted(names)
 
 
 def tens(rows):
@@ -198,20 +249,43 @@ def do_op(op, states, workdir):
         return None
     if t == "sample":
         init = tens(op["init"]) if op.get("init") is not None else None
-        return st.sample(k=op["k"], num_samples=op["num"], initial_state=init)
+        r = st.sample(k=op["k"], num_samples=op["num"], initial_state=init, overwrite=bool(op.get("overwrite", False)))
+        return [r, init] if op.get("overwrite") else r  # with overwrite the caller's tensor is part of the result
+    if t == "obsSample":
+        init = tens(op["init"]) if op.get("init") is not None else None
+        return OBS[op["obs"]]().sample(st, k=op["k"], num_samples=op["num"], initial_state=init, overwrite=bool(op.get("overwrite", False)))
     if t == "statistics":
         obs = [OBS[o]() for o in op["obs"]]
         init = tens(op["init"]) if op.get("init") is not None else None
         target = obs[0] if len(obs) == 1 else System(*obs)
-        return target.statistics(st, num_samples=op["ns"], num_chains=op["nc"], burn_in=op["bi"], steps=op["steps"],
-                                 initial_state=init)
+        r = target.statistics(st, num_samples=op["ns"], num_chains=op["nc"], burn_in=op["bi"], steps=op["steps"],
+                              initial_state=init, overwrite=bool(op.get("overwrite", False)))
+        return [r, init] if op.get("overwrite") else r
     if t == "fit":
         kw = dict(epochs=op["epochs"], pos_batch_size=op["posB"], neg_batch_size=op["negB"], k=op["k"], lr=op["lr"],
                   starting_epoch=op["start"], optimizer=OPT[op["optimizer"]], progbar=False)
         data = tens(op["data"])
         if op.get("bases") is not None:
             kw["input_bases"] = bases_arr(op["bases"])
-        return st.fit(data, **kw)
+        ev = op.get("evaluator")
+        cbs = []
+        if ev is not None:  # a callback that SAMPLES inside the epoch loop (Observable statistics every `period` epochs)
+            from qucumber.callbacks import ObservableEvaluator
+
+            cbs.append(ObservableEvaluator(ev["period"], [OBS[o]() for o in ev["obs"]], verbose=False, num_samples=ev["ns"],
+                                           num_chains=ev["nc"], burn_in=ev["bi"], steps=ev["steps"]))
+        if cbs:
+            kw["callbacks"] = cbs
+        if op.get("sched"):
+            kw["scheduler"] = torch.optim.lr_scheduler.StepLR
+            kw["scheduler_args"] = {"step_size": 1, "gamma": 0.5}
+        if op.get("time"):
+            kw["time"] = True
+        r = st.fit(data, **kw)
+        if ev is not None and r is None:  # what the evaluator recorded is an outcome of the training run (compared between runs)
+            e = cbs[0]  # read back through the evaluator's public accessors only
+            return Extra([[int(ep), {nm: e.get_value(nm, i) for nm in e.names}] for i, ep in enumerate(e.epochs)])
+        return r
     if t == "eval":
         w = op["what"]
         v = tens(op["rows"])
@@ -225,6 +299,26 @@ def do_op(op, states, workdir):
             return OBS[op["obs"]]().apply(st, v)
         if w == "sfs":
             return OBS[op["obs"]]().statistics_from_samples(st, v)
+        if w == "sys_sfs":
+            return System(*[OBS[o]() for o in op["obss"]]).statistics_from_samples(st, v)
+        if w in ("amplitude", "phase"):  # wavefunctions only
+            return getattr(st, w)(v)
+        if w == "rho2":  # off-diagonal block rho(v, v') of a density matrix
+            return st.rho(v, tens(op["rows2"]))
+        if w == "pi":
+            return st.pi(v, tens(op["rows2"]), expand=bool(op.get("expand", True)))
+        if w == "is_denominator":
+            return st.importance_sampling_denominator(v)
+        if w in ("is_numerator", "is_weight"):
+            vp = tens(op["rows2"])
+            f = st.importance_sampling_numerator if w == "is_numerator" else st.importance_sampling_weight
+            return f(vp, v)
+        if w == "hilbert_space":
+            return st.generate_hilbert_space(size=op.get("size"))
+        if w == "subspace_vector":
+            return st.subspace_vector(op["num"], size=op.get("size"))
+        if w == "compute_normalization":
+            return st.compute_normalization(st.generate_hilbert_space())
         raise KeyError(w)
     if t == "metric":
         w = op["what"]
@@ -239,14 +333,20 @@ def do_op(op, states, workdir):
     if t == "rotate":
         w = op["what"]
         space = st.generate_hilbert_space()
+        ud = None if op.get("default_dict") else udict(st)  # unitaries=None: the state's own / the default dictionary
+        extras = bool(op.get("extras", False))
         if w == "rotate_psi":
-            return unitaries.rotate_psi(st, op["basis"], space, unitaries=udict(st))
+            psi = st.psi(space) if op.get("given") else None  # psi= : rotate an explicitly given vector
+            return unitaries.rotate_psi(st, op["basis"], space, unitaries=ud, psi=psi)
         if w == "rotate_rho":
-            return unitaries.rotate_rho(st, op["basis"], space, unitaries=udict(st))
+            rho = st.rho(space, space) if op.get("given") else None
+            return unitaries.rotate_rho(st, op["basis"], space, unitaries=ud, rho=rho)
         if w == "inner_prod":
-            return unitaries.rotate_psi_inner_prod(st, op["basis"], tens(op["rows"]), unitaries=udict(st))
+            psi = st.psi(space) if op.get("given") else None
+            return unitaries.rotate_psi_inner_prod(st, op["basis"], tens(op["rows"]), unitaries=ud, psi=psi, include_extras=extras)
         if w == "rho_probs":
-            return unitaries.rotate_rho_probs(st, op["basis"], tens(op["rows"]), unitaries=udict(st))
+            rho = st.rho(space, space) if op.get("given") else None
+            return unitaries.rotate_rho_probs(st, op["basis"], tens(op["rows"]), unitaries=ud, rho=rho, include_extras=extras)
         raise KeyError(w)
     if t == "gradient":
         w = op["what"]
@@ -262,6 +362,12 @@ def do_op(op, states, workdir):
             return st.compute_exact_gradients(v, space) if pos else st.compute_exact_gradients(v, space, bases_batch=b)
         if w == "rotated":
             return st.rotated_gradient(np.array(list(op["basis"])), v)
+        if w == "exact_grads":  # PositiveWaveFunction's alias
+            return st.compute_exact_grads(v, st.generate_hilbert_space())
+        if w in ("am_grads", "ph_grads"):
+            return getattr(st, w)(v)
+        if w == "pi_grad":
+            return st.pi_grad(v, tens(op["rows2"]), phase=bool(op.get("phase", False)), expand=bool(op.get("expand", False)))
         raise KeyError(w)
     if t == "batchGradient":
         v = tens(op["rows"])
@@ -271,6 +377,9 @@ def do_op(op, states, workdir):
             return st.compute_batch_gradients(op["k"], v, neg)
         return st.compute_batch_gradients(op["k"], v, neg, bases_batch=b)
     if t == "save":
+        md = op.get("metadata")
+        if md is not None:  # save(path, metadata=...): the file gets extra keys, the model must stay as it is
+            return st.save(os.path.join(workdir, f"f{op['path']}.pt"), metadata=dict(md))
         return st.save(os.path.join(workdir, f"f{op['path']}.pt"))
     if t == "load":
         return st.load(os.path.join(workdir, f"f{op['path']}.pt"))
@@ -309,6 +418,8 @@ def main():
             val = do_op(op, states, workdir)
             if val is None:
                 rec["out"] = {"kind": "none"}
+            elif isinstance(val, Extra):
+                rec["out"] = {"kind": "none", "extra": _h(canon(val.v))}
             else:
                 rec["out"] = {"kind": "val", "hash": _h(canon(val))}
         except Exception as e:  # noqa: BLE001 — error kinds are observations
@@ -325,7 +436,7 @@ def main():
         rec["seeds"] = [list(s) for s in SEEDS]
         records.append(rec)
     sys.stdout.write("C14RESULT " + json.dumps({"records": records, "final_params": [param_hash(s) for s in states],
-                                                "repo": qc.REPO, "module": os.path.dirname(qucumber.__file__),
+                                                "repo": qc.REPO, "module": os.path.dirname(qucumber.__file__), "api": public_api(),
                                                 "src": [src_start, source_fingerprint()]}) + "\n")
 
 
